@@ -139,6 +139,9 @@ repeat.
 repeat :- repeat.
 nth0(N, L, E) :- '$ref_nth'(L, 0, N, E).
 nth1(N, L, E) :- '$ref_nth'(L, 1, N, E).
+call_nth(G, N) :- findall(G, G, L), '$ref_call_nth'(N, L, G).
+'$ref_call_nth'(N, L, G) :- integer(N), !, N > 0, '$ref_nth'(L, 1, N, G), !.
+'$ref_call_nth'(N, L, G) :- '$ref_nth'(L, 1, N, G).
 '$ref_nth'([E|_], I, I, E).
 '$ref_nth'([_|T], I, N, E) :- J is I + 1, '$ref_nth'(T, J, N, E).
 `
